@@ -8,6 +8,7 @@ import (
 	"fmt"
 	"reflect"
 	"strings"
+	"sync"
 	"verif/clih"
 
 	"ariga.io/atlas/sql/migrate"
@@ -27,16 +28,28 @@ type Case struct {
 	// Reuse: the second run is made by the SAME Executor over the SAME directory object, edited in
 	// place (a long-lived process); otherwise by a fresh Executor over a fresh directory (the CLI).
 	Reuse bool `json:"reuse,omitempty"`
+	// Salt > 0: the statements carry a suffix, so that the digests recorded for the applied part differ
+	// from case to case: the salts are enumerated until the stored digests have begun with every
+	// character of the base64 alphabet (a digest must be compared whole, whatever it begins or ends with).
+	Salt int `json:"salt,omitempty"`
 }
+
+// digestFirst collects, per salt, the first and last digest characters of the stored partial hashes.
+var digestFirst sync.Map
 
 var errInjected = errors.New("verif: injected failure")
 
 type died struct{}
 
-func old(n int) []string {
+func old(n int) []string { return oldSalt(n, 0) }
+
+func oldSalt(n, salt int) []string {
 	s := make([]string, n)
 	for i := range s {
 		s[i] = fmt.Sprintf("OLD_%d", i+1)
+		if salt > 0 {
+			s[i] += fmt.Sprintf("_s%d", salt)
+		}
 	}
 	return s
 }
@@ -110,7 +123,7 @@ func files(c Case, target []string, style int) map[string]string {
 func eval(c Case) (problems []string, key string) {
 	bad := func(f string, a ...any) { problems = append(problems, fmt.Sprintf(f, a...)) }
 	ctx := context.Background()
-	oldS := old(c.N)
+	oldS := oldSalt(c.N, c.Salt)
 	store := mighelp.NewStore()
 	var execs []string
 	failAt, dieAt, dead := oldS[c.K], "<none>", false
@@ -176,6 +189,15 @@ func eval(c Case) (problems []string, key string) {
 		return []string{fmt.Sprintf("harness: after the failing run revision is %s, want applied=%d total=%d", mighelp.RevString(before), c.K, c.N)}, ""
 	}
 	before = mighelp.CopyRev(before)
+	if c.Salt > 0 {
+		var fl []string
+		for _, h := range before.PartialHashes {
+			if d := strings.TrimPrefix(h, "h1:"); len(d) > 1 {
+				fl = append(fl, d[:1])
+			}
+		}
+		digestFirst.Store(c.Salt, fl)
+	}
 	// edit + re-hash
 	dir2, err := mighelp.Dir(files(c, c.New, 0))
 	if err != nil {
@@ -336,11 +358,21 @@ func cases(tier string) []Case {
 			}
 		}
 	}
+	// digest alphabet: n=3, two statements applied, only file, every single edit and none, x salts.
+	for salt := 1; salt <= saltN; salt++ {
+		gen := 0
+		for _, e := range singleEdits(oldSalt(3, salt), &gen) {
+			cs = append(cs, Case{N: 3, K: 2, Edit: e.name, New: e.out, Salt: salt})
+		}
+		cs = append(cs, Case{N: 3, K: 2, Edit: "none", New: oldSalt(3, salt), Salt: salt})
+	}
 	return cs
 }
 
+const saltN = 400
+
 func Run(r *report.Run) {
-	r.Rule = "files of n<=5 distinct statements x progress k in 0..n-1 (0: the first statement failed) x origin of the partial revision {statement k+1 failed; process died before statement k+1 (no error recorded); statement 1 failed, re-run, then died before statement k+1} (revision always produced by real runs) x layout {only file, middle of 3 files, a checkpoint file between two files} x every single edit (change/insert/delete/swap at every index, truncate to every length; thorough: every pair of edits for n<=4), re-hashed, then ExecuteN on the real Executor (a fresh one over a fresh directory, and - for failed-statement progress - the same Executor over the same directory object edited in place); plus a CLI slice on a real SQLite file: n in 2..4 x k x {no / `migrate set` on the partially applied version} x edit {none, repair, tail, prefix, truncate, insert at front} (for repair, tail and prefix also: the second run under --tx-mode all / file, and a CREATE TRIGGER ... BEGIN ... END block in the applied part) with the partial revision made by the real `migrate apply --tx-mode none`: same rule, read from exit status, output and a journal table, and no panic; for the edits of the applied part also with an older applied file and a newly added file between the two, the second run using --exec-order non-linear (the partially applied file is then not the first file of the run); non-trivial = case whose edit changes the statement list; distinct = (n,k,layout,new list)"
+	r.Rule = "files of n<=5 distinct statements x progress k in 0..n-1 (0: the first statement failed) x origin of the partial revision {statement k+1 failed; process died before statement k+1 (no error recorded); statement 1 failed, re-run, then died before statement k+1} (revision always produced by real runs) x layout {only file, middle of 3 files, a checkpoint file between two files} x every single edit (change/insert/delete/swap at every index, truncate to every length; thorough: every pair of edits for n<=4), re-hashed, then ExecuteN on the real Executor (a fresh one over a fresh directory, and - for failed-statement progress - the same Executor over the same directory object edited in place); plus a digest-alphabet slice: n=3, k=2 x every single edit and none x 400 salted statement lists, whose stored digests begin with every character of the base64 alphabet (counted in the evidence); plus a CLI slice on a real SQLite file: n in 2..4 x k x {no / `migrate set` on the partially applied version} x edit {none, repair, tail, prefix, truncate, insert at front} (for repair, tail and prefix also: the second run under --tx-mode all / file, and a CREATE TRIGGER ... BEGIN ... END block in the applied part) with the partial revision made by the real `migrate apply --tx-mode none`: same rule, read from exit status, output and a journal table, and no panic; for the edits of the applied part also with an older applied file and a newly added file between the two, the second run using --exec-order non-linear (the partially applied file is then not the first file of the run); non-trivial = case whose edit changes the statement list; distinct = (n,k,layout,new list)"
 	r.Assumptions = []string{
 		"'history untouched' compares Applied, Total, PartialHashes, Error, ErrorStmt, Hash, Type; ExecutedAt/ExecutionTime/OperatorVersion are rewritten by design on every write",
 		"statements are distinct tokens; the recording driver never fails during the second run",
@@ -356,7 +388,7 @@ func Run(r *report.Run) {
 	for i, c := range cs {
 		r.Case(fmt.Sprintf("%d|%d|%d|%d|%v|%v", c.N, c.K, c.Layout, c.Mode, c.New, c.Reuse), c.Edit != "none")
 		kinds[strings.Split(c.Edit, "@")[0]]++
-		o := old(c.N)
+		o := oldSalt(c.N, c.Salt)
 		if len(c.New) >= c.K && sameStrings(c.New[:c.K], o[:c.K]) {
 			resumed++
 		} else {
@@ -374,6 +406,15 @@ func Run(r *report.Run) {
 			r.Sample(c)
 		}
 	}
+	firsts := map[string]bool{}
+	digestFirst.Range(func(_, v any) bool {
+		for _, f := range v.([]string) {
+			firsts[f] = true
+		}
+		return true
+	})
+	r.Set("salted_statement_lists", saltN)
+	r.Set("distinct_first_characters_of_stored_digests", len(firsts))
 	ncli := runCLI(r)
 	r.Set("cli_cases", ncli)
 	r.Set("cases_expected_refused", refused)
